@@ -42,7 +42,6 @@ def check_valid(case, ctx):
         st_, pk = call(f)
         if st_ == "exc":
             raise Violation("C09/valid/constructor-raised", "%s for k=%#x raised %r" % (name, k, pk))
-        expect_eq("C09/valid/secret-bytes", "%s .k" % name, bytes(pk.k), k32)
         expect_eq("C09/valid/secret-bytes", "bytes(%s)" % name, bytes(pk), k32)
         expect_eq("C09/valid/sec-compressed", "%s .K.sec() for k=%#x" % (name, k), pk.K.sec(), sec_c)
         expect_eq("C09/valid/sec-compressed", "%s .K.sec(compressed=True)" % name, pk.K.sec(compressed=True), sec_c)
@@ -78,10 +77,10 @@ def check_valid(case, ctx):
             st_, back = call(Prv.from_wif, w)
             if st_ == "exc":
                 raise Violation("C09/valid/from_wif-raised", "from_wif(%s) [%s, k=%#x] raised %r" % (w, flav, k, back))
-            expect_eq("C09/valid/from_wif-roundtrip", "from_wif(wif(%s)) for k=%#x" % (flav, k), bytes(back.k), k32)
+            expect_eq("C09/valid/from_wif-roundtrip", "from_wif(wif(%s)) for k=%#x" % (flav, k), bytes(back), k32)
             # a WIF produced by other software (reference encoder) is read the same way
             st_, back = call(Prv.from_wif, b58.encode_check(want_payload))
-            if st_ == "exc" or bytes(back.k) != k32:
+            if st_ == "exc" or bytes(back) != k32:
                 raise Violation("C09/valid/from_wif-roundtrip", "from_wif(reference WIF %s) -> %r" % (flav, back))
     # after the valid key has been built: other encodings of the same integer, and the negated point
     for name, enc in (("00||k (33 bytes)", b"\x00" + k32), ("8 zero bytes || k", b"\x00" * 8 + k32),
@@ -146,7 +145,7 @@ def check_bad_scalar(case, ctx):
         st_, val = call(f)
         if st_ == "ok":
             raise Violation("C09/reject/bad-scalar-accepted[%s]" % name.split("(")[0],
-                            "%s with scalar %#x returned a key (k=%s)" % (name, v, bytes(getattr(val, "k", b"")).hex()))
+                            "%s with scalar %#x returned a key object" % (name, v))
 
 
 # ------------------------------------------------------------------------------------ rejection: lengths
